@@ -28,7 +28,19 @@ Definition entry (j : json) : json :=
       | _, _ => JObj [("err", JStr "request")]
       end
     else if String.eqb fn "round_to_f16" then
-      match field_num "bits" j with Some b => JObj [("r", JNum (round_to_f16_bits b))] | None => JObj [("err", JStr "request")] end
+      match field_num "bits" j with
+      | Some b => JObj [("r", JNum (round_to_f16_bits b)); ("ieee", JNum (ieee_round_to_f16_bits b))]
+      | None => JObj [("err", JStr "request")]
+      end
+    else if String.eqb fn "f32_rt" then
+      match field_str "op" j, field_num "a" j, field_num "b" j with
+      | Some o, Some a, Some b =>
+        match assoc_str o binops with
+        | Some op => JObj [("r", jopt_lit (f32_rt op a b))]
+        | None => JObj [("err", JStr "op")]
+        end
+      | _, _, _ => JObj [("err", JStr "request")]
+      end
     else entry_with flocq_float_ops j
   | None => JObj [("err", JStr "request")]
   end.
